@@ -223,4 +223,47 @@ def runningMean (n : α) (mean x : List α) : List α :=
 
 end
 
+/-! ### Gaussian ART (Williamson 1996), the whole rule.
+weight = `mean ++ sigma ++ 1/sigma² ++ [sqrt(prod sigma²)] ++ [n]` (lengths `dim, dim, dim, 1, 1`) -/
+
+section
+variable {α : Type} [Add α] [Sub α] [Mul α] [Div α] [Neg α] [Zero α] [One α] [Transc α]
+
+/-- `np.prod` -/
+def vprod : List α → α
+  | [] => 1
+  | x :: xs => x * vprod xs
+
+def gaussMean (dim : Nat) (w : List α) : List α := w.take dim
+def gaussSigma (dim : Nat) (w : List α) : List α := (w.drop dim).take dim
+def gaussInv (dim : Nat) (w : List α) : List α := (w.drop (2 * dim)).take dim
+def gaussSqrtDet (w : List α) : α := w.getD (w.length - 2) 0
+def gaussCount (w : List α) : α := w.getLastD 0
+
+/-- the likelihood term `exp(-1/2 (m - x)ᵀ Σ⁻¹ (m - x))`: it is also the match value -/
+def gaussLik (dim : Nat) (x w : List α) : α :=
+  Transc.exp (-(1 / (1 + 1)) * dot (List.zipWith (· - ·) (gaussMean dim w) x)
+    (List.zipWith (· * ·) (gaussInv dim w) (List.zipWith (· - ·) (gaussMean dim w) x)))
+
+/-- `T = lik / (alpha + sqrt det) * (n / sum of all counts)` (the `(2π)^d` constant is dropped, as in the code) -/
+def gaussChoice (alpha : α) (dim : Nat) (allW : List (List α)) (x w : List α) : α :=
+  gaussLik dim x w / (alpha + gaussSqrtDet w) * (gaussCount w / vsum (allW.map gaussCount))
+
+/-- running mean and running (diagonal) standard deviation; `1/sigma²`, `sqrt(prod sigma²)` and the count are re-derived -/
+def gaussUpdate (dim : Nat) (x w : List α) : List α :=
+  let n' := gaussCount w + 1
+  let mean' := List.zipWith (· + ·) ((gaussMean dim w).map ((1 - 1 / n') * ·)) (x.map ((1 / n') * ·))
+  let d := List.zipWith (· - ·) mean' x
+  let sigma' := (List.zipWith (· + ·)
+      ((List.zipWith (· * ·) (gaussSigma dim w) (gaussSigma dim w)).map ((1 - 1 / n') * ·))
+      ((List.zipWith (· * ·) d d).map ((1 / n') * ·))).map Transc.sqrt
+  let s2 := List.zipWith (· * ·) sigma' sigma'
+  mean' ++ sigma' ++ s2.map (1 / ·) ++ [Transc.sqrt (vprod s2)] ++ [n']
+
+def gaussNew (sigmaInit x : List α) : List α :=
+  let s2 := List.zipWith (· * ·) sigmaInit sigmaInit
+  x ++ sigmaInit ++ s2.map (1 / ·) ++ [Transc.sqrt (vprod s2)] ++ [1]
+
+end
+
 end Art
